@@ -44,6 +44,10 @@ type Rule struct {
 	Or    []OrItem // or
 	// Raw, when non-empty, is written verbatim as the rule value (used to plant malformed values).
 	Raw string
+	// ItemNotes (enum with a literal list): per-value notes, written as `// note` after the value
+	// when the annotation is rendered over several lines; NotesWritten is set by the renderer.
+	ItemNotes    []string
+	NotesWritten bool
 }
 
 // Node is one example value with its annotation.
@@ -55,6 +59,7 @@ type Node struct {
 	Refs  []string // KRef: user type names of the shortcut
 	Rules []*Rule  // annotation rules in written order
 	Note  string   // annotation note text
+	Dash  bool     // rules followed by the note separator " -" and an EMPTY note
 
 	// filled by the renderer
 	Pos    int // byte offset of the value (first byte of literal / opening bracket / '@')
@@ -212,6 +217,7 @@ func (n *Node) Clone() *Node {
 func (r *Rule) Clone() *Rule {
 	c := *r
 	c.List = append([]string(nil), r.List...)
+	c.ItemNotes = append([]string(nil), r.ItemNotes...)
 	c.Or = nil
 	for _, it := range r.Or {
 		ci := OrItem{Name: it.Name}
